@@ -635,7 +635,15 @@ def run_part(ctx):
         ctx.evaluations += len(mc)
         # model side: TextTapeMore.parse_quote_scalar_swar / split_at_scalar_plain (the theorems of Props/C01_more.v section 6)
         mm = vlib.run_model([c.replace("tt.quote\t", "tt.quote8\t").replace("tt.split\t", "tt.split_plain\t") for c in mc])
+        # a Miri process that ran out of its time budget (interpreter speed depends on the machine's load) is "not run",
+        # never an observation of the code: counted in the evidence, no disagreement, no failure
+        skipped = {c for c, o in zip(mc, out) if o in ("MIRI-HANG", "MIRI-MISSING")}
+        if skipped:
+            ctx.count("miri_cases_not_run", len(skipped))
+            ctx.notes.append("nonx86: %d of %d Miri cases did not finish within the time budget and were not judged" % (len(skipped), len(mc)))
         for c, o, m in zip(mc, out, mm):
+            if c in skipped:
+                continue
             if o != m:
                 ctx.streams["nonx86"]["disagree"] += 1
                 ctx.disagreements.append(("nonx86", c, o, m))
@@ -643,6 +651,8 @@ def run_part(ctx):
             kind, h = c.split("\t")
             d = unhex(h)
             want = quote_spec(d) if kind == "tt.quote" else split_spec(d) if kind == "tt.split" else fresh.get(h)
+            if c in skipped:
+                continue
             if o != want:
                 ctx.fail("nonx86", "non-x86-64 build (Miri, %s): %s(%r) = %s, expected %s" % (MIRI_TARGET, kind, d, o[:300], str(want)[:300]), [c], [o], want)
             ctx.nontrivial.add(hashlib.md5(("miri\x00" + c + "\x00" + o).encode()).digest()[:8])
